@@ -14,6 +14,58 @@ def validation_dominates(rep):
                       'sqlparse.format', ok, {}, undecided_if_false=True)
 
 
+def _dyn_candidates(txt):
+    """python values for a Dyn term printed by z3 (DNone, DBool(True), DInt(5), DStr("x"), DFloat(k, t, e), DOther(n))"""
+    import re
+    t = str(txt)
+    if t.startswith('DNone'):
+        return [None]
+    m = re.match(r'DBool\((\w+)\)', t)
+    if m:
+        return [m.group(1) == 'True']
+    m = re.match(r'DInt\((-?\d+)\)', t)
+    if m:
+        return [int(m.group(1))]
+    m = re.match(r'DStr\("(.*)"\)', t)
+    if m:
+        return [m.group(1)]
+    m = re.match(r'DFloat\((-?\d+), (-?\d+), (\w+)\)', t)
+    if m:
+        k, tr, exact = int(m.group(1)), int(m.group(2)), m.group(3) == 'True'
+        return [float('inf'), float('-inf')] if k == 1 else [float('nan')] if k == 2 else [float(tr) if exact else tr + 0.5]
+    if t.startswith('DOther'):
+        return [[], {}, (), object()]
+    return []
+
+
+def replay_options(rep):
+    """counter-models of validate_options obligations replayed through sqlparse.format on the real code: one option at a
+    time with the value of the model (an `other object` is tried as a list, a dict, a tuple and a plain object)"""
+    from pyvc.core import import_repo, FAILED
+    sqlparse = import_repo()
+    from sqlparse.exceptions import SQLParseError
+    for ob in rep.obls:
+        if ob.status != FAILED or ob.fn != 'sqlparse.formatter.validate_options':
+            continue
+        model = (ob.witness or {}).get('model') or (ob.detail or {}).get('model') or {}
+        found = None
+        for k, v in sorted(model.items()):
+            if not k.startswith('opt_') or found:
+                continue
+            name = k[4:]
+            for val in _dyn_candidates(v):
+                try:
+                    sqlparse.format('select 1', **{name: val})
+                except SQLParseError:
+                    continue
+                except Exception as e:      # noqa
+                    found = {'input': ('option', name, repr(val)), 'failure': 'format("select 1", %s=%r) raised %s: %s'
+                             % (name, val, type(e).__name__, str(e)[:80]), 'reproduced': True}
+                    break
+        if found:
+            ob.witness = dict(ob.witness or {}, **found)
+
+
 def run(rep):
     from props.C15 import run_obligations
     def rec(r):
@@ -32,7 +84,7 @@ def run(rep):
              ('sqlparse.utils.remove_quotes', 'None')] + tc.NAV_FUNCS + \
             [(tc.GT, 'new group'), (tc.GT, 'extend flag')] + tc.MATCHER_FUNCS + tc.PASS_FUNCS + tc.JOINER_FUNCS
     return generic.run_generic(
-        rep, funcs, structural=[validation_dominates, rec],
+        rep, funcs, structural=[replay_options, validation_dominates, rec],
         assumptions=['option values range over None | bool | int | float (finite, inf, nan) | str | other object; objects '
                      'with custom __eq__/__int__/__bool__ are outside the modelled domain',
                      'raises-clauses are proved for the functions listed under contract; the grouping drivers, the '
